@@ -41,6 +41,10 @@ var aliasKindsDeep = append(append([]string{}, aliasKinds...), "alias-hardlink-c
 
 var allDstDeep = append(append([]string{}, dstKindsDeep...), aliasKindsDeep...)
 
+// the random shards also draw the source-side alias kinds
+var srcKindsRand = append(append([]string{}, srcKindsDeep...), "symlink-chain", "dot", "hardlink", "symlink")
+var allDstRand = append(append(append([]string{}, allDstDeep...), realAliasKinds...), realAliasKinds...)
+
 var nameStyles = []string{"", "space", "unicode", "newline", "long", "dash", "meta"}
 
 var spellings = []string{"", "dst-slash", "dst-dotdot", "dst-dslash", "dst-dot", "src-slash", "src-dotdot", "src-dslash", "both-dotdot"}
@@ -308,7 +312,7 @@ func randCases(seed int64, part, count int) []Case {
 	var out []Case
 	for len(out) < count {
 		pl := placements[r.Intn(len(placements))]
-		cs := Case{Op: pick([]string{"copy", "move"}), Size: size(), SrcFS: pl[0], DstFS: pl[1], Src: pick(srcKindsDeep), Dst: pick(allDstDeep)}
+		cs := Case{Op: pick([]string{"copy", "move"}), Size: size(), SrcFS: pl[0], DstFS: pl[1], Src: pick(srcKindsRand), Dst: pick(allDstRand)}
 		if r.Intn(4) == 0 {
 			cs.Name = pick(nameStyles)
 		}
